@@ -1214,6 +1214,9 @@ func (fc *fnCtx) mblock(stmts []ast.Stmt, lvl int) (string, error) {
 	if text, handled, err := fc.k01decStmt(s, rest, lvl); handled { // wp k01dec (ext_k01dec.go)
 		return text, err
 	}
+	if text, handled, err := fc.k01dec2Stmt(s, rest, lvl); handled { // wp k01dec2 (ext_k01dec2.go)
+		return text, err
+	}
 	switch x := s.(type) {
 	case *scopeEnd:
 		for _, n := range x.names {
